@@ -34,7 +34,7 @@ const (
 func (w *vWorld) startSession(target int, finderTimer bool, notify bool) bool {
 	w.mu.Lock()
 	w.dlv, w.dlvHash, w.tasks, w.ancInfo = nil, nil, nil, nil
-	w.sessFull, w.nilFault, w.hfArmed = false, false, false
+	w.sessFull, w.nilFault, w.hfArmed, w.bfEnded = false, false, false, false
 	w.ackedOK = map[int]bool{}
 	w.common0 = w.common()
 	w.curTarget = target
@@ -527,7 +527,10 @@ func (w *vWorld) expire(p, s int) string {
 // hash fetcher hand over a hash set) is ordered after the responses delivered so far.
 func (w *vWorld) bfBarrier() {
 	bf := w.sy.blockFetcher
-	if bf == nil {
+	w.mu.Lock()
+	ended := w.bfEnded
+	w.mu.Unlock()
+	if bf == nil || ended {
 		return
 	}
 	deadline := time.Now().Add(300 * time.Millisecond) // an ended (or parked) block fetcher never drains it
